@@ -105,7 +105,7 @@ func (*Enum) Build(gen Generator, ctx *MethodContext, sourceID *xtype.JenID, sou
 	}
 	cases = append(cases, jen.Default().Add(body))
 
-	for name := range definedKeys {
+	for _, name := range sortedNames(definedKeys) {
 		return nil, nil, NewError(fmt.Sprintf("Configured enum value %s does not exist on\n    %s", name, source.String)).
 			Lift(&Path{
 				Prefix:     ".",
